@@ -11,7 +11,7 @@ use crate::refmodel::schema::*;
 use crate::tape::Tape;
 use cedar_policy::{Policy, PolicyId, PolicySet, Schema, SchemaFragment, ValidationMode, Validator};
 
-fn gen_commons(t: &mut Tape, rs: &RSchema) -> Vec<semit::Common> {
+pub fn gen_commons(t: &mut Tape, rs: &RSchema) -> Vec<semit::Common> {
     // candidate types: attribute / context / tag types occurring in the schema
     let mut cands: Vec<(String, RType)> = Vec::new();
     for e in &rs.entity_types {
@@ -39,11 +39,22 @@ fn gen_commons(t: &mut Tape, rs: &RSchema) -> Vec<semit::Common> {
         return out;
     }
     let n = t.weighted(&[2, 3, 2]);
-    let names = ["T0", "Alias", "Shape_1"];
+    // common types may be called like an extension type (then the built-in has to be written `__cedar::…` in that namespace)
+    let names = [["T0", "ipaddr"], ["Alias", "decimal"], ["Shape_1", "datetime"]];
+    let declared: Vec<String> = rs.entity_types.iter().map(|e| e.name.clone()).collect();
     for i in 0..n {
         let (ns, ty) = cands[t.upto(cands.len())].clone();
+        let name = names[i][if t.bool_p(1, 4) { 1 } else { 0 }].to_string();
+        let q = if ns.is_empty() { name.clone() } else { format!("{ns}::{name}") };
+        // an entity type and a common type of the same name in one namespace is an error; an unqualified name also
+        // resolves to the empty namespace, so avoid clashes there as well
+        // (RFC 70 also forbids a definition in a namespace to shadow one in the empty namespace: keep base names unique)
+        let _ = q;
+        if declared.iter().any(|d| split_name(d).1 == name) || out.iter().any(|(_, n, _)| n == &name) {
+            continue;
+        }
         if !out.iter().any(|(ons, _, oty)| ons == &ns && oty == &ty) {
-            out.push((ns, names[i].to_string(), ty));
+            out.push((ns, name, ty));
         }
     }
     out
@@ -61,11 +72,16 @@ fn case(t: &mut Tape, rec: &mut Rec<'_>) {
     let o = SchemaOpts { multi_ns: true, shadow: true, ..SchemaOpts::default() };
     let rs = s::gen_schema(t, &o);
     let commons = gen_commons(t, &rs);
-    let (j, c) = semit::with_commons(&commons, || (semit::schema_json(&rs, Some(t)), semit::schema_cedar(&rs, Some(t))));
+    let annotated = t.coin();
+    let salt = t.upto(1 << 16) as u32;
+    let emit = |t: &mut Tape| semit::with_commons(&commons, || (semit::schema_json(&rs, Some(t)), semit::schema_cedar(&rs, Some(t))));
+    let (j, c) = if annotated { semit::with_annotations(salt, || emit(t)) } else { emit(t) };
+    rec.label_if(annotated && (c.contains('@')), "annotations");
     let multi_ns = rs.namespaces().len() >= 2;
     rec.nontrivial = multi_ns || !commons.is_empty() || rs.entity_types.iter().any(|e| e.enum_ids.is_some()) || c.contains('"');
     rec.label_if(multi_ns, "multi-namespace");
     rec.label_if(!commons.is_empty(), "common-types");
+    rec.label_if(commons.iter().any(|(_, n, _)| ["ipaddr", "decimal", "datetime"].contains(&n.as_str())), "common-type-shadows-extension-type");
     rec.label_if(rs.entity_types.iter().any(|e| ["String", "Long", "Bool", "ipaddr"].contains(&split_name(&e.name).1.as_str())), "shadowed-builtin");
     rec.label_if(rs.entity_types.iter().any(|e| e.enum_ids.is_some()), "enum");
     rec.label_if(rs.entity_types.iter().any(|e| e.tags.is_some()), "tags");
